@@ -51,9 +51,9 @@ func init() {
 	})
 	register(&Property{
 		ID:          "C36",
-		Explanation: "RI/RJ: over the module functions reachable (VTA call graph) from the query bodies, task.run and Canonicalize, no clock/random/environment primitive is called outside the reviewed stopwatch, and every map / sync.Map iteration is order-insensitive by idiom or reviewed (diagnostics pushed in map order are sorted by Canonicalize before being observable). RC4: Run returns a report only after Canonicalize and nothing is appended afterwards. RU: every field of report.Diagnostic must be a sort key of Canonicalize (directly, or through Primary()); un-keyed observable fields make the canonical order depend on the input order and are reported.",
+		Explanation: "RI/RJ: over the module functions reachable (VTA call graph) from the query bodies, task.run and Canonicalize, no clock/random/environment primitive is called outside the reviewed stopwatch, and every map / sync.Map iteration is order-insensitive by idiom or reviewed (diagnostics pushed in map order are sorted by Canonicalize before being observable). RC4: Run returns a report only after Canonicalize and nothing is appended afterwards. RU: every field of report.Diagnostic must be a sort key of Canonicalize (directly, or through Primary()); un-keyed observable fields make the canonical order depend on the input order and are reported. RU2: on every path of Canonicalize each mutation of r.Diagnostics besides the sort (assignment, marking, slices.DeleteFunc, function literal or same-package callee doing so) is preceded by the sort, so which duplicate survives is decided over the sorted slice. RU3: inside package incremental a task's report is handed out by address only in (*Task).Report and otherwise written only on the leader-only section of task.run (success edge of result.CompareAndSwap(nil, …)); *Task values bound to a task are created only there — one writer per task report on every schedule.",
 		NotDecided:  "idempotence of de-duplication; determinism of the diagnostics each query produces",
-		Rules:       []func(*World){rc4Incremental, ruCanonicalize, riIncremental},
+		Rules:       []func(*World){rc4Incremental, ruCanonicalize, ru2SortBeforeDedup, ru3ReportSingleWriter, riIncremental},
 	})
 	register(&Property{
 		ID:          "C37",
@@ -63,9 +63,9 @@ func init() {
 	})
 	register(&Property{
 		ID:          "C27",
-		Explanation: "RNC: no function of the experimental descriptor generator (experimental/fdp) narrows or sign-converts a 32/64-bit integer without dominating range guards (a default or number rendered through the wrong signedness differs from the stable compiler). RS: the accept flag of ir.(*Session).Lower is computed by a comparison of Diagnostic.Level() with constants which, evaluated over the whole Level domain with go/constant, clears ok exactly for {ICE, Error}.",
+		Explanation: "RNC: no function of the experimental descriptor generator (experimental/fdp) narrows or sign-converts a 32/64-bit integer without dominating range guards (a default or number rendered through the wrong signedness differs from the stable compiler). RDV: the function of experimental/fdp that assigns FieldDescriptorProto.DefaultValue must render float defaults with a bit size that depends on the field (a `float` default is a 32-bit value; the stable compiler prints its shortest float32 form) and must look up an enum default by the name written (the ir value keeps only the number, which aliases share). RSB: the stable and the experimental validator report a canonical enum-value-name conflict only at points reached with the two values' numbers known to differ (branch-sensitive dataflow), so aliases are accepted by both. RS: the accept flag of ir.(*Session).Lower is computed by a comparison of Diagnostic.Level() with constants which, evaluated over the whole Level domain with go/constant, clears ok exactly for {ICE, Error}.",
 		NotDecided:  "agreement of verdicts and descriptors between the two compilers (differential, value-level)",
-		Rules:       []func(*World){rsLower, rncFDP},
+		Rules:       []func(*World){rsLower, rncFDP, rdvDefaultRendering, rsbEnumNameConflict},
 	})
 	register(&Property{
 		ID:          "C04",
